@@ -51,14 +51,14 @@ VARIABLES hotRes, coldRes,
           phase,      \* "down" | "scan" | "migrate" | "reconcile" | "end"
           stodo, cands, rtodo,
           pass,       \* 1 | 2: which pass over the candidate list
-          nW, nD,     \* [Files -> Nat]: WriteReader(cold, f) / Delete(hot, f) calls so far in this cycle
+          nW, nD, nU, \* [Files -> Nat]: WriteReader(cold,f) / Delete(hot,f) / UpdateTier(f) calls so far in this cycle
           clean,      \* no crash and no error reported (errors = 0) since the cycle began
           settled,    \* the last cycle ran to its end and reported errors = 0
           faults,
           cyc, hist   \* history (generation only; hidden by VIEW in the MC configs)
 
-state == <<hotRes, coldRes, hot, coldFinal, coldPart, meta, pc, phase, stodo, cands, rtodo, pass, nW, nD, clean, settled, faults>>
-vars  == <<hotRes, coldRes, hot, coldFinal, coldPart, meta, pc, phase, stodo, cands, rtodo, pass, nW, nD, clean, settled, faults, cyc, hist>>
+state == <<hotRes, coldRes, hot, coldFinal, coldPart, meta, pc, phase, stodo, cands, rtodo, pass, nW, nD, nU, clean, settled, faults>>
+vars  == <<hotRes, coldRes, hot, coldFinal, coldPart, meta, pc, phase, stodo, cands, rtodo, pass, nW, nD, nU, clean, settled, faults, cyc, hist>>
 MCView == state
 
 Init == /\ hotRes \in BOOLEAN /\ coldRes \in BOOLEAN
@@ -67,7 +67,7 @@ Init == /\ hotRes \in BOOLEAN /\ coldRes \in BOOLEAN
         /\ meta = [f \in Files |-> "hot"]
         /\ pc = [f \in Files |-> "idle"]
         /\ phase = "down" /\ stodo = {} /\ cands = {} /\ rtodo = {}
-        /\ pass = 1 /\ nW = [f \in Files |-> 0] /\ nD = [f \in Files |-> 0]
+        /\ pass = 1 /\ nW = [f \in Files |-> 0] /\ nD = [f \in Files |-> 0] /\ nU = [f \in Files |-> 0]
         /\ clean = FALSE /\ settled = FALSE /\ faults = 0
         /\ cyc = <<>> /\ hist = <<>>
 
@@ -82,26 +82,27 @@ StartCycle ==
     /\ ~(StopWhenSettled /\ settled)
     /\ phase' = "scan" /\ stodo' = Files /\ clean' = TRUE /\ settled' = FALSE
     /\ pc' = [f \in Files |-> "idle"] /\ cands' = {} /\ rtodo' = {}
-    /\ UNCHANGED <<hotRes, coldRes, hot, coldFinal, coldPart, meta, faults, pass, nW, nD>> /\ NoHist
+    /\ pass' = 1 /\ nW' = [f \in Files |-> 0] /\ nD' = [f \in Files |-> 0] /\ nU' = [f \in Files |-> 0]
+    /\ UNCHANGED <<hotRes, coldRes, hot, coldFinal, coldPart, meta, faults>> /\ NoHist
 
 \* RecordFile upsert for a file listed in the hot backend: tier := hot
 ScanFile(f) ==
     /\ phase = "scan" /\ ~ScanAtomic /\ f \in stodo
     /\ meta' = IF hot[f] THEN [meta EXCEPT ![f] = "hot"] ELSE meta
     /\ stodo' = stodo \ {f}
-    /\ UNCHANGED <<hotRes, coldRes, hot, coldFinal, coldPart, pc, phase, cands, rtodo, clean, settled, faults, pass, nW, nD>> /\ NoHist
+    /\ UNCHANGED <<hotRes, coldRes, hot, coldFinal, coldPart, pc, phase, cands, rtodo, clean, settled, faults, pass, nW, nD, nU>> /\ NoHist
 
 ScanAll ==
     /\ phase = "scan" /\ ScanAtomic /\ stodo # {}
     /\ meta' = [f \in Files |-> IF hot[f] THEN "hot" ELSE meta[f]]
     /\ stodo' = {}
-    /\ UNCHANGED <<hotRes, coldRes, hot, coldFinal, coldPart, pc, phase, cands, rtodo, clean, settled, faults, pass, nW, nD>> /\ NoHist
+    /\ UNCHANGED <<hotRes, coldRes, hot, coldFinal, coldPart, pc, phase, cands, rtodo, clean, settled, faults, pass, nW, nD, nU>> /\ NoHist
 
 \* FindCandidates: rows with tier = hot
 ScanEnd ==
     /\ phase = "scan" /\ stodo = {}
     /\ phase' = "migrate" /\ cands' = {f \in Files : meta[f] = "hot"}
-    /\ UNCHANGED <<hotRes, coldRes, hot, coldFinal, coldPart, meta, pc, stodo, rtodo, clean, settled, faults, pass, nW, nD>> /\ NoHist
+    /\ UNCHANGED <<hotRes, coldRes, hot, coldFinal, coldPart, meta, pc, stodo, rtodo, clean, settled, faults, pass, nW, nD, nU>> /\ NoHist
 
 Busy(f)   == pc[f] \in {"copying", "copied", "metaDone"}
 MayRun(f) == /\ phase = "migrate" /\ f \in cands
@@ -112,36 +113,40 @@ MayRun(f) == /\ phase = "migrate" /\ f \in cands
 CopyBegin(f) ==
     /\ MayRun(f) /\ pc[f] = "idle"
     /\ pc' = [pc EXCEPT ![f] = "copying"] /\ coldPart' = [coldPart EXCEPT ![f] = TRUE]
-    /\ UNCHANGED <<hotRes, coldRes, hot, coldFinal, meta, phase, stodo, cands, rtodo, clean, settled, faults, pass, nW, nD>> /\ NoHist
+    /\ nW' = [nW EXCEPT ![f] = @ + 1]
+    /\ UNCHANGED <<hotRes, coldRes, hot, coldFinal, meta, phase, stodo, cands, rtodo, clean, settled, faults, pass, nD, nU>> /\ NoHist
 
 \* ... and renames it over the final path once the stream is complete
 CopyEnd(f) ==
     /\ MayRun(f) /\ pc[f] = "copying" /\ hot[f]
     /\ pc' = [pc EXCEPT ![f] = "copied"]
     /\ coldPart' = [coldPart EXCEPT ![f] = FALSE] /\ coldFinal' = [coldFinal EXCEPT ![f] = TRUE]
-    /\ UNCHANGED <<hotRes, coldRes, hot, meta, phase, stodo, cands, rtodo, clean, settled, faults, pass, nW, nD>> /\ NoHist
+    /\ UNCHANGED <<hotRes, coldRes, hot, meta, phase, stodo, cands, rtodo, clean, settled, faults, pass, nW, nD, nU>> /\ NoHist
 
 \* the source read or the destination write fails: MigrateFile returns the error.
 \* part = TRUE: the failure came after WriteReader had created the staging file.
 CopyFail(f, part) ==
     /\ MayRun(f) /\ CanFault(1)
     /\ \/ pc[f] = "idle" /\ ~part            \* the write fails before anything is created
-       \/ pc[f] = "copying" /\ part
+       \/ pc[f] = "copying" /\ part /\ hot[f]   \* (without a source the copy fails by itself: CopyNoSource)
     /\ pc' = [pc EXCEPT ![f] = "failed"]
     /\ coldPart' = IF part THEN [coldPart EXCEPT ![f] = TRUE] ELSE coldPart   \* an older staging file stays
     /\ faults' = faults + 1 /\ clean' = FALSE
-    /\ cyc' = Append(cyc, Fault(f, IF part THEN "copy_mid" ELSE "copy_begin", "fail")) /\ UNCHANGED hist
-    /\ UNCHANGED <<hotRes, coldRes, hot, coldFinal, meta, phase, stodo, cands, rtodo, settled, pass, nW, nD>>
+    /\ nW' = IF part THEN nW ELSE [nW EXCEPT ![f] = @ + 1]
+    /\ cyc' = Append(cyc, Fault(f, IF part THEN "copy_mid" ELSE "copy_begin", "fail", nW'[f])) /\ UNCHANGED hist
+    /\ UNCHANGED <<hotRes, coldRes, hot, coldFinal, meta, phase, stodo, cands, rtodo, settled, pass, nD, nU>>
 
-\* a source that has vanished (cannot happen as written: kept for mutated trees) fails the copy
+\* the source is gone (second pass over a file the first pass migrated): ReadTo fails, the copy fails,
+\* the empty staging file stays
 CopyNoSource(f) ==
     /\ MayRun(f) /\ pc[f] = "copying" /\ ~hot[f]
     /\ pc' = [pc EXCEPT ![f] = "failed"] /\ clean' = FALSE
-    /\ UNCHANGED <<hotRes, coldRes, hot, coldFinal, coldPart, meta, phase, stodo, cands, rtodo, settled, faults, pass, nW, nD>> /\ NoHist
+    /\ UNCHANGED <<hotRes, coldRes, hot, coldFinal, coldPart, meta, phase, stodo, cands, rtodo, settled, faults, pass, nW, nD, nU>> /\ NoHist
 
 MetaUpdate(f) ==
     /\ MayRun(f) /\ pc[f] = "copied"
     /\ pc' = [pc EXCEPT ![f] = "metaDone"] /\ meta' = [meta EXCEPT ![f] = "cold"]
+    /\ nU' = [nU EXCEPT ![f] = @ + 1]
     /\ UNCHANGED <<hotRes, coldRes, hot, coldFinal, coldPart, phase, stodo, cands, rtodo, clean, settled, faults, pass, nW, nD>> /\ NoHist
 
 \* UpdateTier fails: roll back by deleting the destination copy (which may fail as well)
@@ -151,66 +156,83 @@ MetaFail(f, rollbackOK) ==
     /\ pc' = [pc EXCEPT ![f] = "failed"]
     /\ coldFinal' = IF rollbackOK THEN [coldFinal EXCEPT ![f] = FALSE] ELSE coldFinal
     /\ faults' = faults + (IF rollbackOK THEN 1 ELSE 2) /\ clean' = FALSE
-    /\ cyc' = (IF rollbackOK THEN Append(cyc, Fault(f, "meta", "fail"))
-               ELSE Append(Append(cyc, Fault(f, "meta", "fail")), Fault(f, "rollback", "fail")))
+    /\ nU' = [nU EXCEPT ![f] = @ + 1]
+    /\ cyc' = (IF rollbackOK THEN Append(cyc, Fault(f, "meta", "fail", nU'[f]))
+               ELSE Append(Append(cyc, Fault(f, "meta", "fail", nU'[f])), Fault(f, "rollback", "fail", 1)))
     /\ UNCHANGED hist
     /\ UNCHANGED <<hotRes, coldRes, hot, coldPart, meta, phase, stodo, cands, rtodo, settled, pass, nW, nD>>
 
 SrcDelete(f) ==
     /\ MayRun(f) /\ pc[f] = "metaDone"
     /\ pc' = [pc EXCEPT ![f] = "finished"] /\ hot' = [hot EXCEPT ![f] = FALSE]
-    /\ UNCHANGED <<hotRes, coldRes, coldFinal, coldPart, meta, phase, stodo, cands, rtodo, clean, settled, faults, pass, nW, nD>> /\ NoHist
+    /\ nD' = [nD EXCEPT ![f] = @ + 1]
+    /\ UNCHANGED <<hotRes, coldRes, coldFinal, coldPart, meta, phase, stodo, cands, rtodo, clean, settled, faults, pass, nW, nU>> /\ NoHist
 
 \* "Don't fail the migration - file is in destination, just source cleanup failed"
 SrcDeleteFail(f) ==
     /\ MayRun(f) /\ pc[f] = "metaDone" /\ CanFault(1)
     /\ pc' = [pc EXCEPT ![f] = "finished"]
     /\ faults' = faults + 1          \* MigrateFile still returns nil: the cycle reports no error for it
-    /\ cyc' = Append(cyc, Fault(f, "src_delete", "fail")) /\ UNCHANGED hist
-    /\ UNCHANGED <<hotRes, coldRes, hot, coldFinal, coldPart, meta, phase, stodo, cands, rtodo, clean, settled, pass, nW, nD>>
+    /\ nD' = [nD EXCEPT ![f] = @ + 1]
+    /\ cyc' = Append(cyc, Fault(f, "src_delete", "fail", nD'[f])) /\ UNCHANGED hist
+    /\ UNCHANGED <<hotRes, coldRes, hot, coldFinal, coldPart, meta, phase, stodo, cands, rtodo, clean, settled, pass, nW, nU>>
+
+\* the same candidate list is worked through a second time (overlapping cycle / retry with a stale list)
+SecondPass ==
+    /\ phase = "migrate" /\ \A f \in cands : pc[f] \in {"finished", "failed"}
+    /\ Overlap # "never" /\ pass = 1 /\ cands # {}
+    /\ pass' = 2 /\ pc' = [f \in Files |-> "idle"]
+    /\ UNCHANGED <<hotRes, coldRes, hot, coldFinal, coldPart, meta, phase, stodo, cands, rtodo, clean, settled, faults, nW, nD, nU>> /\ NoHist
 
 MigrateEnd ==
     /\ phase = "migrate" /\ \A f \in cands : pc[f] \in {"finished", "failed"}
+    /\ (Overlap = "always" /\ cands # {}) => pass = 2
     /\ phase' = "reconcile" /\ rtodo' = {f \in Files : meta[f] = "cold"}
-    /\ UNCHANGED <<hotRes, coldRes, hot, coldFinal, coldPart, meta, pc, stodo, cands, clean, settled, faults, pass, nW, nD>> /\ NoHist
+    /\ UNCHANGED <<hotRes, coldRes, hot, coldFinal, coldPart, meta, pc, stodo, cands, clean, settled, faults, pass, nW, nD, nU>> /\ NoHist
 
 \* ReconcileOrphanedFiles, one row: Exists(hot) -> Delete(hot)
 Reconcile(f) ==
     /\ phase = "reconcile" /\ f \in rtodo
     /\ rtodo' = rtodo \ {f}
     /\ hot' = [hot EXCEPT ![f] = FALSE]
-    /\ UNCHANGED <<hotRes, coldRes, coldFinal, coldPart, meta, pc, phase, stodo, cands, clean, settled, faults, pass, nW, nD>> /\ NoHist
+    /\ nD' = IF hot[f] THEN [nD EXCEPT ![f] = @ + 1] ELSE nD
+    /\ UNCHANGED <<hotRes, coldRes, coldFinal, coldPart, meta, pc, phase, stodo, cands, clean, settled, faults, pass, nW, nU>> /\ NoHist
 
 \* Exists or Delete fails for an orphan: counted, skipped
 ReconcileFail(f, at) ==
     /\ phase = "reconcile" /\ f \in rtodo /\ hot[f] /\ CanFault(1)
     /\ rtodo' = rtodo \ {f}
     /\ faults' = faults + 1 /\ clean' = FALSE
-    /\ cyc' = Append(cyc, Fault(f, at, "fail")) /\ UNCHANGED hist
-    /\ UNCHANGED <<hotRes, coldRes, hot, coldFinal, coldPart, meta, pc, phase, stodo, cands, settled, pass, nW, nD>>
+    /\ nD' = IF at = "rec_delete" THEN [nD EXCEPT ![f] = @ + 1] ELSE nD
+    /\ cyc' = Append(cyc, Fault(f, at, "fail", IF at = "rec_delete" THEN nD'[f] ELSE 1)) /\ UNCHANGED hist
+    /\ UNCHANGED <<hotRes, coldRes, hot, coldFinal, coldPart, meta, pc, phase, stodo, cands, settled, pass, nW, nU>>
 
 EndCycle ==
     /\ phase = "reconcile" /\ rtodo = {}
     /\ phase' = "end" /\ settled' = clean
     /\ hist' = Append(hist, Snap("end", hot, coldFinal, coldPart, meta)) /\ cyc' = <<>>
-    /\ UNCHANGED <<hotRes, coldRes, hot, coldFinal, coldPart, meta, pc, stodo, cands, rtodo, clean, faults, pass, nW, nD>>
+    /\ UNCHANGED <<hotRes, coldRes, hot, coldFinal, coldPart, meta, pc, stodo, cands, rtodo, clean, faults, pass, nW, nD, nU>>
 
 \* where the process dies, named by the next step of the file being worked on
 CrashPoint ==
-    IF phase = "scan" /\ stodo = Files THEN {Fault(0, "scan", "crash")}
-    ELSE IF phase = "scan" THEN (IF ScanAtomic THEN {} ELSE {Fault(0, "scan_mid", "crash")})
+    IF phase = "scan" /\ stodo = Files THEN {Fault(0, "scan", "crash", 1)}
+    ELSE IF phase = "scan" THEN (IF ScanAtomic THEN {} ELSE {Fault(0, "scan_mid", "crash", 1)})
     ELSE IF phase = "migrate" THEN
         { Fault(f, CASE pc[f] = "idle"     -> "copy_begin"
                      [] pc[f] = "copying"  -> "copy_mid"
                      [] pc[f] = "copied"   -> "copy_end"
                      [] pc[f] = "metaDone" -> "src_delete"
                      [] pc[f] = "finished" -> "src_deleted"
-                     [] OTHER              -> "none", "crash")
-          : f \in {g \in cands : pc[g] # "failed" /\
+                     [] OTHER              -> "none", "crash",
+                   CASE pc[f] = "idle"     -> nW[f] + 1
+                     [] pc[f] \in {"copying", "copied"} -> nW[f]
+                     [] pc[f] = "metaDone" -> nD[f] + 1
+                     [] OTHER              -> nD[f])
+          : f \in {g \in cands : pc[g] # "failed" /\ (pc[g] = "copying" => hot[g]) /\
                      (Concurrent \/ pc[g] # "idle" \/ \A k \in cands : k < g => pc[k] \in {"finished", "failed"}) /\
                      (pc[g] = "finished" => ~hot[g]) /\
                      (Concurrent \/ pc[g] # "finished" \/ \A k \in cands : k > g => pc[k] = "idle")} }
-    ELSE IF phase = "reconcile" THEN {Fault(f, "rec_delete", "crash") : f \in {g \in rtodo : hot[g]}}
+    ELSE IF phase = "reconcile" THEN {Fault(f, "rec_delete", "crash", nD[f] + 1) : f \in {g \in rtodo : hot[g]}}
     ELSE {}
 
 Crash ==
@@ -220,9 +242,10 @@ Crash ==
          /\ hist' = Append(hist, [Snap("crash", hot, coldFinal, coldPart, meta) EXCEPT !.faults = Append(cyc, c)])
     /\ phase' = "down" /\ faults' = faults + 1 /\ clean' = FALSE /\ settled' = FALSE
     /\ pc' = [f \in Files |-> "idle"] /\ stodo' = {} /\ cands' = {} /\ rtodo' = {}
-    /\ UNCHANGED <<hotRes, coldRes, hot, coldFinal, coldPart, meta, pass, nW, nD>>
+    /\ pass' = 1 /\ nW' = [f \in Files |-> 0] /\ nD' = [f \in Files |-> 0] /\ nU' = [f \in Files |-> 0]
+    /\ UNCHANGED <<hotRes, coldRes, hot, coldFinal, coldPart, meta>>
 
-Next == \/ StartCycle \/ ScanAll \/ ScanEnd \/ MigrateEnd \/ EndCycle \/ Crash
+Next == \/ StartCycle \/ ScanAll \/ ScanEnd \/ SecondPass \/ MigrateEnd \/ EndCycle \/ Crash
         \/ \E f \in Files : \/ ScanFile(f) \/ CopyBegin(f) \/ CopyEnd(f) \/ CopyNoSource(f)
                             \/ \E b \in BOOLEAN : CopyFail(f, b) \/ MetaFail(f, b)
                             \/ MetaUpdate(f) \/ SrcDelete(f) \/ SrcDeleteFail(f)
@@ -256,5 +279,5 @@ Safety == TypeOK /\ Readable /\ ExactlyOnce /\ NeverInvisible /\ SourceKeptUntil
 \* generation: one line per behaviour that ends in a clean cycle
 EmitInv ==
     (Emit /\ phase = "end" /\ settled) =>
-        PrintT(<<"TRACE", ToJson([hotRes |-> hotRes, coldRes |-> coldRes, cycles |-> hist])>>)
+        PrintT(<<"TRACE", ToJson([hotRes |-> hotRes, coldRes |-> coldRes, overlap |-> (Overlap = "always"), cycles |-> hist])>>)
 =============================================================================
